@@ -333,6 +333,10 @@ pub struct OutCase {
     /// enqueued in front of it; otherwise it is enqueued behind it (calls) / sent (empty queue)
     #[serde(default)]
     pub send: bool,
+    /// encoded lengths of messages that were sent (and flushed) on the same connection before the
+    /// case proper: a used connection must enforce the same limit as a fresh one
+    #[serde(default)]
+    pub history: Vec<usize>,
 }
 
 const BASE_FLAGS: u8 = 0;
@@ -389,6 +393,17 @@ fn judge_out(case: &OutCase, stats: &mut Stats) -> CaseResult {
     let mut conn = Connection::new(sock);
     let fail = |sig: &str, m: String| Err(Fail::new(sig, format!("limit {l}, {case:?} (total {total}): {m}")));
     let wc = conn.write_mut();
+    for (i, &h) in case.history.iter().enumerate() {
+        let Some(m) = msg_of_len(MsgKind::CallEcho, h) else { return Ok(()) };
+        match run_until_ready(m.submit(wc, SendOp::SendCall), 4) {
+            Some(Ok(())) => {}
+            other => return fail("out-setup", format!("sending message {i} of the history gave {other:?}")),
+        }
+    }
+    let history_writes = handle.writes().len();
+    if !case.history.is_empty() {
+        stats.class("out:used-connection(history of sends)");
+    }
     if let Some(f) = &first {
         match run_until_ready(f.submit(wc, SendOp::Enqueue), 4) {
             Some(Ok(())) => {}
@@ -407,7 +422,7 @@ fn judge_out(case: &OutCase, stats: &mut Stats) -> CaseResult {
         None => return fail("out-pending", "send stayed pending on an always-ready transport".into()),
     };
     // a refused message "sends nothing": not its own bytes, and not what was queued in front of it
-    let writes_at_refusal = handle.writes().len();
+    let writes_at_refusal = handle.writes().len() - history_writes;
     if r.is_err() && writes_at_refusal > 0 {
         return fail("out-refusal-wrote-to-the-transport", format!("the refused send returned {r:?} after {writes_at_refusal} transport write(s)"));
     }
@@ -417,7 +432,7 @@ fn judge_out(case: &OutCase, stats: &mut Stats) -> CaseResult {
     }
     let small = Msg::Ok { kind: MsgKind::CallPing, flags: 2, pad: 0 };
     let after = run_until_ready(small.submit(wc, SendOp::SendCall), 4);
-    let writes = handle.writes();
+    let writes = handle.writes()[history_writes..].to_vec();
     if writes.iter().any(|w| w.len() > l) {
         return fail("out-write-exceeds-limit", format!("a transport write of {} bytes", writes.iter().map(|w| w.len()).max().unwrap()));
     }
@@ -541,7 +556,7 @@ fn small_cases(ctx: &Ctx) -> Vec<Case> {
         let near = r <= 3 || r >= STEP - 3 || len + 600 >= l;
         if near || thorough || len % 7 == 0 {
             let kind = kinds[len % kinds.len()];
-            v.push(Case::Out(OutCase { build: b.clone(), fill: 0, len, kind, send: false }));
+            v.push(Case::Out(OutCase { build: b.clone(), fill: 0, len, kind, send: false, history: vec![] }));
         }
     }
     // outbound behind an enqueued message: the end position sweeps the limit and the steps
@@ -552,15 +567,43 @@ fn small_cases(ctx: &Ctx) -> Vec<Case> {
             let near = r <= 2 || r >= STEP - 2 || total + 300 >= l;
             if near || (thorough && total % 5 == 0) {
                 let len = total - fill - 1;
-                v.push(Case::Out(OutCase { build: b.clone(), fill, len, kind: MsgKind::CallEcho, send: false }));
+                v.push(Case::Out(OutCase { build: b.clone(), fill, len, kind: MsgKind::CallEcho, send: false, history: vec![] }));
                 // the same through send_* (replies / errors / calls) behind the enqueued call; also a
                 // message that exceeds the limit all on its own
                 let kind = kinds[total % kinds.len()];
-                v.push(Case::Out(OutCase { build: b.clone(), fill, len, kind, send: true }));
+                v.push(Case::Out(OutCase { build: b.clone(), fill, len, kind, send: true, history: vec![] }));
                 if total % 4 == 0 && total > l {
-                    v.push(Case::Out(OutCase { build: b.clone(), fill, len: l + (total % 300), kind, send: true }));
+                    v.push(Case::Out(OutCase { build: b.clone(), fill, len: l + (total % 300), kind, send: true, history: vec![] }));
                 }
             }
+        }
+    }
+    // used connections: whatever earlier traffic did to the write buffer (grown, possibly
+    // reclaimed), the same limit applies afterwards
+    let histories: Vec<Vec<usize>> = {
+        let mut h: Vec<Vec<usize>> = vec![vec![713, 13], vec![600], vec![1300, 5], vec![2400, 10, 10], vec![5000, 40, 700], vec![l - 700, 12], vec![300, 300, 300], vec![12_345, 77, 3000, 9]];
+        let extra = if thorough { 40 } else { 8 };
+        for i in 0..extra {
+            let r = mix(ctx.seed ^ 0x4157, i);
+            h.push((0..1 + (r % 4) as usize).map(|k| 60 + (mix(r, k as u64) as usize) % [500usize, 3000, l - 100][(r >> 8) as usize % 3]).collect());
+        }
+        h
+    };
+    for (hi, h) in histories.iter().enumerate() {
+        let span: usize = if thorough { 600 } else { 300 };
+        for total in l - span..=l + span {
+            if !thorough && (total + hi) % 2 == 1 && total + 8 < l {
+                continue;
+            }
+            let kind = kinds[(total + hi) % kinds.len()];
+            v.push(Case::Out(OutCase { build: b.clone(), fill: 0, len: total - 1, kind, send: false, history: h.clone() }));
+            if total % 3 == 0 {
+                v.push(Case::Out(OutCase { build: b.clone(), fill: 257, len: total - 258, kind: MsgKind::CallEcho, send: total % 2 == 0, history: h.clone() }));
+            }
+        }
+        // and the steps far below the limit still work
+        for total in [256usize, 257, 511, 512, 513, 1024, 4096, 4097] {
+            v.push(Case::Out(OutCase { build: b.clone(), fill: 0, len: total - 1, kind: MsgKind::CallEcho, send: false, history: h.clone() }));
         }
     }
     v
